@@ -130,3 +130,22 @@ CHECKS.update({
   'note': 'The threaded part is a stress run (schedule not owned by the harness). Cache hits on colliding keys and evictions are measured through cache_info() and reported.',
  },
 })
+
+# streams added while strengthening against seeded changes and soak runs (DESIGN.md 7.4)
+EXTRA_TEXT = {
+ 'C02': 'A further shard checks that REALPATH on a fixed tree without symlinks never changes a verdict (globmatch(p, pat, flags|REALPATH) == globmatch(p[+/], pat, flags) for every entry), and a bracket-set shard covers POSIX classes / ranges that contain the separator.',
+ 'C04': 'Literal sweeps add every entry as an escaped literal (single, and in ordered pairs of variants for entries below symlinked directories); patterns with adjacent globstars of different kinds are judged on link-free paths only; a mutate stream changes one root between calls.',
+ 'C06': 'Clause (d) rotates root_dir / dir_fd / cwd and four exclusion forms (none, exclude= str, exclude= list, inline); a separate stream judges the implicit MATCHBASE prefix alone; a two-globstar stream mixes `**` and `***` around literal segments.',
+ 'C08': 'A deterministic grid runs every subset of nine list-related flags over 20 list shapes x 6 exclude= forms, and a raw-escape table runs escapes that decode to list / brace / group metacharacters under every subset of seven flags incl. RAWCHARS (str and bytes).',
+ 'C09': 'A shapes stream runs 36 drive / UNC / device-namespace spellings with metacharacters in every part under every subset of seven flags including CASE.',
+ 'C11': 'WcMatch is driven through its file pattern and through its folder-exclusion pattern (with and without RECURSIVE); the harness also records the bound handed to bracex and the number of items it yields.',
+ 'C12': 'The root is additionally spelled with a trailing separator, with `/.` and as <parent>/alias/.. (alias = symlink to a subdirectory of the root); a literal sweep names every entry incl. dangling links under root_dir / dir_fd / cwd.',
+ 'C14': 'Metamorphic clause: the same root spelled with a trailing separator, with `/.` and as `.` from inside yields the same files and the same skipped count.',
+ 'C16': 'A dots table runs 16 patterns that can reach both `d` and `d/.` under every subset of seven flags: no path twice unless NOUNIQUE, Path.glob == glob.glob; concrete Path.full_match / globmatch are compared with glob.globmatch on the path string.',
+ 'C17': 'Path patterns are also run with doubled and tripled separators (a run of separators means one, under either convention), with `[\\\\]` atoms, and through lists (relation R8).',
+ 'C18': 'The file-system stream spells patterns with runs of separators, trailing separators, a leading `.//` and BRACE empty alternatives; high escapes (`\\xe9`, `\\351`) are compared between bytes and latin-1 str.',
+ 'C19': 'A second state machine changes the world between calls (files, directories and symlinks appear and vanish, HOME moves; warm answer vs all caches cleared, and vs two fresh interpreters at the end of each history), 12 scripted transitions (symlink becomes directory, HOME starts to exist, ...) are compared with a fresh interpreter, caller-owned pattern lists are edited in place between calls, and REALPATH/FOLLOW matchers are compared with their pickled / copied twins on paths through symlinks.',
+ 'C20': 'For half of the texts the plain (non-RAWCHARS) call on the same text is made first in the same process.',
+}
+for _k, _v in EXTRA_TEXT.items():
+    CHECKS[_k]['text'] = CHECKS[_k]['text'].rstrip() + ' ' + _v
